@@ -156,6 +156,12 @@ theorem pend_leaves : Leaves (keeps PendInv) where
     intro b _ x _ h
     unfold gcRules; split; · exact h
     split <;> exact h
+  installMonitor := fun _ _ _ h => h
+  joinMonitors := by
+    intro b c x rules h
+    show (gcRules b _).pending.Nodup
+    unfold gcRules; split; · exact h
+    split <;> exact h
   clearRules := fun _ _ h => h
   removeConn := fun _ _ h => h
   connect := fun _ _ _ _ _ _ h => h
@@ -189,7 +195,7 @@ theorem fold_noReply (b0 : Bus) (f : Pending → Bool) : ∀ (ps : List Pending)
       refine ⟨h1, ?_⟩
       rcases sendError_out t p.caller (fakeCall p.serial) .noReply with ho | ho
       · exact ⟨l, by rw [hl, ho], hs.cons _⟩
-      · refine ⟨noReplyFor b0 p :: l, ?_, hs.cons₂ _⟩
+      · refine ⟨noReplyFor b0 p :: l, ?_, hs.cons_cons _⟩
         rw [hl, ho, h]; simp [noReplyFor]
     · have hf' : f p = false := by simpa using hf
       simp only [hf', Bool.false_eq_true, if_false, List.filter_cons]
@@ -220,7 +226,6 @@ theorem timeout_one_noreply_each (b : Bus) :
   have key := fold_noReply { b with pending := [] } (fun _ => true) b.pending ({ bus := { b with pending := [] } } : Tx) rfl
   have hft : b.pending.filter (fun _ => true) = b.pending := List.filter_eq_self.mpr (fun _ _ => rfl)
   simp only [if_true, hft] at key
-  dsimp only
   refine ⟨by rw [key.1], ?_⟩
   obtain ⟨l, hl, hs⟩ := key.2
   exact ⟨l, by rw [hl]; rfl, hs⟩
